@@ -80,7 +80,21 @@ def main(pid, level, fn, argv=None):
         if os.path.exists(ev_path):
             os.remove(ev_path)
         facts = get_facts()
-        fn(res, facts, tier)
+        try:
+            fn(res, facts, tier)
+        except Inconclusive as e:
+            # what was established before the analysis gave up still stands: a violation already found is reported
+            if not res.violations:
+                raise
+            res.floor_failures.append(str(e))
+        except Exception as e:
+            if type(e).__name__ in ("PathLimit", "Unsupported"):
+                # an analysis bound was exceeded / a construct is not modelled: undecided, not a checker defect
+                if not res.violations:
+                    raise Inconclusive("analysis bound exceeded or construct not modelled (%s: %s)" % (type(e).__name__, e))
+                res.floor_failures.append("%s: %s" % (type(e).__name__, e))
+            else:
+                raise
     except Inconclusive as e:
         print("INCONCLUSIVE property=%s %s" % (pid, e))
         sys.exit(3)
